@@ -13,6 +13,7 @@ import LyModel.Props.C11Range
 #print axioms LyModel.Props.C11.range_subset_sound_partial
 #print axioms LyModel.Props.C11.range_parse_safe_fails
 #print axioms LyModel.Props.C11.range_parse_safe_partial
+#print axioms LyModel.Props.C11.range_parse_safe_partial_anybase
 #print axioms LyModel.Props.C11.range_parse_invariant_fixed
 #print axioms LyModel.Props.C11.range_subset_sound_fixed
 #print axioms LyModel.Props.C11.range_parse_safe_fixed
